@@ -45,7 +45,13 @@ fn observe_glob(g: &Glob<'_>, paths: &[String]) -> Vec<String> {
             (0..=n + 2).map(|i| m.get(i).map(|s| ((s.as_ptr() as usize).wrapping_sub(base), s.to_string()))).collect()
         });
         let owned: Option<Vec<Option<String>>> =
-            m.map(|m| m.into_owned()).map(|m| (0..=n + 2).map(|i| m.get(i).map(String::from)).collect());
+            match guard(move || m.map(|m| m.into_owned()).map(|m| (0..=n + 2).map(|i| m.get(i).map(String::from)).collect::<Vec<_>>())) {
+                Ok(o) => o,
+                Err(msg) => {
+                    out.push(format!("!owned-differs on {:?}: reading the owned matched text panicked ({})", p, msg));
+                    None
+                },
+            };
         // owned matched text returns the same captures as the borrowed text it was made from
         let borrowed_texts: Option<Vec<Option<String>>> = caps.as_ref().map(|v| v.iter().map(|c| c.as_ref().map(|x| x.1.clone())).collect());
         if owned != borrowed_texts {
